@@ -1444,6 +1444,15 @@ def run_C08(ck):
                 cases.append({'line': 'lzma_dec opt=%s in=%s' % (opt, hx(data)), 'meta': m, 'expect': 'err' if meta['marker'] else None, 'true_out': out, 'paylen': len(payload)})
                 ck.count('provided_size_all_ones')
                 if hl == 5: break
+        if meta['marker']:
+            # all-zero bytes in a write of their own right after the end marker (a range decoder fed zeros goes on decoding): with no
+            # size in effect they are trailing data, with a larger size in effect the marker came too early - an error either way
+            for zi_, (opt, eff, hl, z_) in enumerate((('rfh', None, 13, 1), ('rfh', None, 13, 24), ('up:none', None, 5, 6), ('rhp:%d' % (T + 1), T + 1, 13, 5), ('up:%d' % (T + 2), T + 2, 5, 7))):
+                data = b[:5] + (struct.pack('<Q', ALL_ONES) if hl == 13 else b'') + payload
+                m = {'eff': eff, 'T': T, 'marker': True, 'trailing': z_, 'opt': opt, 'hsize': 'ones', 'hdrlen': hl, 'zero_tail': True}
+                for lens in ([len(data), z_], [len(data)] + [1] * z_):
+                    cases.append({'line': 'stream opt=%s calls=%s' % (opt, stream_calls(data + bytes(z_), lens)), 'meta': m, 'expect': 'err', 'true_out': out, 'stream': True})
+                    ck.count('marker_then_zero_tail')
         for hsize in ['ones', T, T - 1, T + 1, 0, 1 << 63, T + (1 << 32), T + (rng.range(2, 1000) << 32)]:    # incl. sizes equal to the true one modulo 2^32
             field = ALL_ONES if hsize == 'ones' else max(0, hsize)
             for trailing in ([b''] if not quick or rng.chance(2, 3) else []) + ([rng.bytes(rng.range(1, 9))] if rng.chance(1, 3) else []):
